@@ -284,6 +284,7 @@ type Outcome struct {
 	PanicVal string
 	Frame    string
 	Err      error
+	ErrText  string
 	Class    string // "" on success
 	Postings []Posting
 	TxMeta   map[string]numscript.Value
@@ -399,6 +400,11 @@ func Run(pr numscript.ParseResult, vars map[string]string, flags map[string]stru
 
 func fill(o *Outcome, res numscript.ExecutionResult, err numscript.InterpreterError) {
 	if err != nil {
+		// an error value must be usable: rendering it is part of the observation
+		if p, v, fr := fw.Catch(func() { o.ErrText = err.Error(); _ = err.GetRange() }); p {
+			o.Panicked, o.PanicVal, o.Frame = true, fmt.Sprintf("rendering the returned error (%T) panics: %v", err, v), fr
+			return
+		}
 		o.Err = err
 		o.Class = Classify(err)
 		if res.Postings != nil || res.Metadata != nil || res.AccountsMetadata != nil {
